@@ -25,7 +25,7 @@ theorem readFields_sound {σ : Type} (p : Path) (h : Bytes → Option (σ → By
       obtain ⟨s1, b2, h1, e⟩ := Res.bind_ok.1 e
       exact ReadsN.cons pk (ReadsN.cons (hh k f s b1 s1 b2 hf h1) (readFields_sound p h hh n s1 b2 s' r e))
     · obtain ⟨_, b2, h1, e⟩ := Res.bind_ok.1 e
-      exact ReadsN.cons pk (ReadsN.cons (skip_sound h1) (readFields_sound p h hh n s b2 s' r e))
+      exact ReadsN.cons pk (ReadsN.cons (skipP_sound h1) (readFields_sound p h hh n s b2 s' r e))
 
 theorem readFields_noPanic {σ : Type} (p : Path) (h : Bytes → Option (σ → Bytes → Res σ))
     (hh : ∀ k f s b, h k = some f → (f s b).NoPanic) :
@@ -36,7 +36,7 @@ theorem readFields_noPanic {σ : Type} (p : Path) (h : Bytes → Option (σ → 
     refine (readMapKey_noPanic p b).bind fun k b1 => ?_
     split
     · next f hf => exact (hh k f s b1 hf).bind fun s1 b2 => readFields_noPanic p h hh n s1 b2
-    · exact (skip_noPanic b1).bind fun _ b2 => readFields_noPanic p h hh n s b2
+    · exact (skipP_noPanic p b1).bind fun _ b2 => readFields_noPanic p h hh n s b2
 
 /-! ### option / ack / helo maps -/
 
